@@ -497,11 +497,23 @@ class FileIndex(Index):
     def _reader(cls, storage, schema, segments, generation, reuse=None):
         # Returns a reader for the given segments, possibly reusing already
         # opened readers
+        from whoosh.filedb.filestore import OverlayStorage
         from whoosh.reading import SegmentReader, MultiReader, EmptyReader
 
         if reuse:
-            # Merge segments with reuse segments
-            segments.extend([segment for segment in reuse.segments() if segment not in segments])
+            # Carry over readers for segments that live outside this index's
+            # storage (e.g. a BufferedWriter's in-memory segment). Segments of
+            # this index that are no longer listed in the TOC were merged away
+            # or cleared and must not come back
+            for r, _ in reuse.leaf_readers():
+                segment = r.segment()
+                if segment is None or segment in segments:
+                    continue
+                rstore = r.storage()
+                while isinstance(rstore, OverlayStorage):
+                    rstore = rstore.b
+                if rstore is not storage:
+                    segments.append(segment)
 
         reusable = {}
         try:
@@ -519,9 +531,13 @@ class FileIndex(Index):
             # It removes any readers it reuses from the "reusable" dictionary,
             # so later we can close any readers left in the dictionary.
             def segreader(segment):
-                if segment in reusable:
-                    r = reusable[segment]
+                r = reusable.get(segment)
+                # Only reuse a reader if no documents were deleted from its
+                # segment since the reader was opened
+                if (r is not None and set(r.segment().deleted_docs())
+                        == set(segment.deleted_docs())):
                     del reusable[segment]
+                    r._gen = generation
                     return r
                 else:
                     return SegmentReader(storage, schema, segment,
